@@ -1570,3 +1570,15 @@ Proof.
     unfold ns_rel_tx at 1. cbn [fst snd]. rewrite Ht. unfold ns_held at 1. cbn [flat_map fst app].
     rewrite <- Hs. exact A.
 Qed.
+
+(* none lost, the progress side: once every in-flight exchange of an established session has
+   finished, nothing is left waiting (NSTART >= 1) *)
+Theorem ns_drained_when_idle c est0 evs : ns_wf c -> 1 <= ns_nstart c ->
+  let s := ns_run c (ns_init est0) evs in
+  ns_est s = true -> ns_sq s = [] -> ns_dq s = [].
+Proof.
+  intros Hwf Hn s He Hs.
+  pose proof (ns_no_needless_hold c est0 evs Hwf) as H. cbn zeta in H. fold s in H.
+  specialize (H He). destruct (ns_dq s) as [|q t]; [reflexivity|].
+  destruct H as [_ H]. rewrite Hs in H. cbn [length] in H. lia.
+Qed.
